@@ -149,7 +149,8 @@ def element_options(interp, it, node):
         out = []
         for s in it.content.sites:
             s2 = s.rename(ctx)
-            out.append((s2.all_vars(), s2.full_cond(), s2.elem, None))
+            # loop variables + decisions of the source site stay decisions; what was knowledge stays knowledge
+            out.append((s2.bvars, z3.And(s2.cond, s2.cond_d), s2.elem, None, s2.cond_h))
         return out
     if isinstance(it, VSet) and it.pred is not None:
         ek = getattr(it, "elem_kind", None)
@@ -167,9 +168,10 @@ def element_options(interp, it, node):
     if isinstance(it, VEnum):
         # enumerate over an unordered iterable: index unknown
         out = []
-        for bv, cond, elem, _ in element_options(interp, it.it, node):
+        for opt in element_options(interp, it.it, node):
+            bv, cond, elem = opt[0], opt[1], opt[2]
             i = ctx.fresh("idx", z3.IntSort())
-            out.append((bv + [i], z3.And(cond, i >= it.start), VTuple([VInt(i), elem]), None))
+            out.append((bv + [i], z3.And(cond, i >= it.start), VTuple([VInt(i), elem]), None) + tuple(opt[4:]))
         return out
     if isinstance(it, VCombos):
         return combos_options(interp, it, node)
@@ -743,10 +745,7 @@ def _quant_truth(interp, v, node, is_all):
             body = z3.Implies(s.full_cond(), t)
             parts.append(z3.ForAll(s.all_vars(), body) if s.all_vars() else body)
         else:
-            if s.hvars:
-                body = z3.And(s.cond, z3.ForAll(s.hvars, z3.Implies(s.cond_h, t)))
-            else:
-                body = z3.And(s.cond, t)
+            body = s.exists_body(t)
             parts.append(z3.Exists(s.bvars, body) if s.bvars else body)
     if not parts:
         return z3.BoolVal(is_all)
@@ -1049,3 +1048,41 @@ def _chain(interp, args, kwargs, node):
     for a in args:
         interp.mutate_extend(acc, a, node)
     return acc
+
+
+# ---- multiprocessing.Pool (assumed: map = sequential order-preserving map; workers inherit module globals as they
+# were when the pool was created) --------------------------------------------------------------------------------
+
+@extern("multiprocessing.Pool")
+def _pool(interp, args, kwargs, node):
+    o = VObj("Pool")
+    o.globals_at_creation = dict(interp.global_state)
+    return o
+
+
+def with_stmt(interp, node, env):
+    if len(node.items) != 1:
+        raise Unsupported("with: several items")
+    it = node.items[0]
+    cm = interp.ev(it.context_expr, env)
+    if not (isinstance(cm, VObj) and cm.tag == "Pool"):
+        raise Unsupported(f"{interp.current_qualname}:{node.lineno}: with statement over {cm!r}")
+    if it.optional_vars is not None:
+        interp.assign(it.optional_vars, cm, env, node)
+    interp.exec_block(node.body, env)
+
+
+@method("Pool", "map")
+def _pool_map(interp, sv, args, kwargs, node):
+    f, it = args[0], args[1]
+    cs = kwargs.get("chunksize", args[2] if len(args) > 2 else NONE)
+    short = (interp.current_qualname or "").replace("pyrepseq.", "")
+    line = getattr(node, "lineno", "?")
+    interp.ctx.assumed.add("extern:multiprocessing.Pool.map(f, it, chunksize) = list(map(f, it)) in input order, requires chunksize >= 1; "
+                           "workers see module globals as of Pool creation (fork); scheduling is not modelled")
+    if not isinstance(cs, VNone):
+        interp.ctx.oblige(f"{short}/call-pre[Pool.map.chunksize>=1]@L{line}", to_int(cs) >= 1, kind="call-pre", line=line)
+    stale = [k for k, v in interp.global_state.items() if sv.globals_at_creation.get(k) is not v]
+    interp.ctx.oblige(f"{short}/order[globals assigned before Pool()]@L{line}", z3.BoolVal(not stale), kind="order", line=line,
+                      detail=f"module globals written after the pool was created: {stale}")
+    return BUILTINS["list"](interp, [BUILTINS["map"](interp, [f, it], {}, node)], {}, node)
